@@ -4,10 +4,12 @@ Property theorems only (helper lemmas live in Lemmas/Store*.lean).
 
 Model: PybropsModel/Model/Store.lean — an HDF5 file as a finite map path ↦ dataset,
 `h5py_File_write_dict` and `h5py_File_read_dict` as they are (after fixes 93761174 / 9631bba1;
-the pre-repair writer and reader are kept as `…Prerepair` for the counterexamples),
+the pre-repair writer and reader are kept as `…Prerepair` for the counterexamples), `TruePhenotyping.to_hdf5`
+after the repair of D30 (`require_group`; explicit groups are marker entries of the map),
 the typed readers, one schema + constructor per persistable class.
 -/
 import PybropsModel.Lemmas.StoreHist2
+import PybropsModel.Lemmas.StoreGroup
 import PybropsModel.Lemmas.StoreExamples
 import PybropsModel.Lemmas.StoreCopyLemmas
 import PybropsModel.Lemmas.StoreVcfLemmas
@@ -117,65 +119,171 @@ theorem fromHdf5_some (sch : Schema) (f : File) (s : String) (hs : s.isEmpty = f
     fromHdf5 sch f (some s) = fromHdf5At sch f (parsePath s) := by
   simp [fromHdf5, fromHdf5At, fromHdf5G, chk, hs, hm]
 
-/-- **Named groups.**  `from_hdf5(file, "g")` first demands that the group exists.  Under the hypotheses
-    of `hdf5_last_write_wins`, an object that stores at least one array (every class but the
-    parameter-free `TruePhenotyping` has a mandatory one) makes its group exist, so the call with the group
-    *name* — any spelling `s` of the path — returns exactly the object written there last. -/
-theorem hdf5_named_group_roundtrip (sch : Schema) (H1 H2 : List Write) (w : Write) (s : String)
-    (hpf : PrefixFree (Touched (H1 ++ w :: H2))) (hnb : ∀ w' ∈ H1 ++ w :: H2, NoBad w'.obj)
-    (hkeys : (sch.fields.map (·.key)).Nodup) (hun : Unreached w H2)
-    (hv : valid sch w.obj = true) (hs : s.isEmpty = false) (hp : parsePath s = w.g)
-    (hdata : ∃ k d, (k, Item.data d) ∈ w.obj) :
-    ∃ f, runHist [] (H1 ++ w :: H2) = (f, none) ∧ fromHdf5 sch f (some s) = .ok w.obj := by
-  have hv' : validG true sch w.obj = true := hv
-  have hc : conformsG true sch w.obj = true := by
-    unfold validG at hv'; rw [Bool.and_eq_true] at hv'; exact hv'.1
-  obtain ⟨f, h1, h2, h3⟩ := region_after_write H1 H2 w hpf hnb
-    (keysNodup_of_conforms true sch w.obj hc hkeys) hun
-  refine ⟨f, h1, ?_⟩
-  obtain ⟨k, d, hm⟩ := hdata
-  have hmem : mem f (w.g ++ [k]) = true := mem_of_region_data h3 hm
-  have hg : mem f (parsePath s) = true := by
-    rw [hp, mem_eq_true_iff]
-    rcases (mem_eq_true_iff f (w.g ++ [k])).mp hmem with h | ⟨e, he, hpre⟩
-    · exact absurd h (append_singleton_ne_nil w.g k)
-    · exact Or.inr ⟨e, he, (List.prefix_append w.g [k]).trans hpre⟩
-  rw [fromHdf5_some sch f s hs hg, hp]
-  exact fromHdf5At_of_region true sch h2 h3 hv'
+/-- every class either makes its group on purpose (`TruePhenotyping`, after the repair of D30) or stores a
+    mandatory array, and no class has a field called like the group marker -/
+theorem every_class_makes_its_group (sch : Schema)
+    (h : sch ∈ [pgmatSchema, gmatSchema, bvmatSchema, cmatSchema, vmatSchema, vmatKSchema 3, vmatKSchema 4,
+      algSchema, adlgSchema, geSchema 0, tpSchema, dmatSchema, tmatSchema, vrmatSchema, tvmatSchema, trmatSchema,
+      ttmatSchema, sq4Schema]) :
+    (requiresGroup sch = true ∨ ∃ fd ∈ sch.fields, fd.required = true) ∧
+      ∀ fd ∈ sch.fields, fd.key ≠ markKey := by
+  simp only [List.mem_cons, List.mem_nil_iff, or_false] at h
+  rcases h with h | h | h | h | h | h | h | h | h | h | h | h | h | h | h | h | h | h <;> subst h <;> decide +kernel
 
-/-- **Finding D30 (TruePhenotyping under a named group).**  FULL STATEMENT (false of the as-is model, see
-    counterexample): `∀ s f, fromHdf5 tpSchema (toHdf5 f (some s) true []).1 (some s) = .ok []`.
-    The protocol has no parameter to store: `to_hdf5` writes nothing, so a group that did not exist
-    before still does not exist, and `from_hdf5` with that group name refuses (`LookupError`). -/
-theorem tp_named_group_counterexample (s : String) (f : File) (hs : s.isEmpty = false)
+/-- **Last write wins, all classes, named groups.**  For every history of overwriting `to_hdf5` calls of ANY of
+    the persistable classes — the parameter-free `TruePhenotyping` included, whose `to_hdf5` makes its group
+    on purpose — in which the datasets and group markers form a prefix-free set of paths and no later call
+    reaches into `x`: no call fails; `from_hdf5` at the location `x.g` returns exactly the object written
+    there last; and so does `from_hdf5` with the group *name* (any spelling `s` of the path), because the
+    group exists — through the mandatory array of the class, or because the class made it. -/
+theorem hdf5_named_group_roundtrip (sch : Schema) (H1 H2 : List WriteX) (g : Path) (o : Obj) (s : String)
+    (hpf : PrefixFree (TouchedX (H1 ++ writeOf sch g o :: H2)))
+    (hnb : ∀ x' ∈ H1 ++ writeOf sch g o :: H2, NoBad x'.obj)
+    (hkeys : (sch.fields.map (·.key)).Nodup) (hun : UnreachedX (writeOf sch g o) H2)
+    (hv : valid sch o = true) (hs : s.isEmpty = false) (hp : parsePath s = g)
+    (hcls : (requiresGroup sch = true ∨ ∃ fd ∈ sch.fields, fd.required = true) ∧
+      ∀ fd ∈ sch.fields, fd.key ≠ markKey) :
+    ∃ f, runHistX [] (H1 ++ writeOf sch g o :: H2) = (f, none) ∧ fromHdf5At sch f g = .ok o ∧
+      fromHdf5 sch f (some s) = .ok o := by
+  have hv' : validG true sch o = true := hv
+  have hc : conformsG true sch o = true := by
+    unfold validG at hv'; rw [Bool.and_eq_true] at hv'; exact hv'.1
+  have hmk : ∀ kv ∈ (writeOf sch g o).obj, kv.1 ≠ markKey := by
+    intro kv hkv
+    have : kv.1 ∈ sch.fields.map (·.key) := by
+      rw [← keys_of_conforms true sch o hc]; exact List.mem_map_of_mem (f := Prod.fst) hkv
+    obtain ⟨fd, hfd, hk⟩ := List.mem_map.mp this
+    exact hk ▸ hcls.2 fd hfd
+  obtain ⟨f, h1, h2, h3, h4⟩ := region_after_writeX H1 H2 (writeOf sch g o) hpf hnb
+    (keysNodup_of_conforms true sch o hc hkeys) hun hmk
+  have hread : fromHdf5At sch f g = .ok o := fromHdf5At_of_region true sch h2 h3 hv'
+  refine ⟨f, h1, hread, ?_⟩
+  have hg : mem f (parsePath s) = true := by
+    rw [hp]
+    rcases hcls.1 with hgrp | hreq
+    · exact h4 hgrp
+    · obtain ⟨k, d, hm⟩ := data_of_required true sch o hc hreq
+      have hmem : mem f (g ++ [k]) = true := mem_of_region_data h3 hm
+      rw [mem_eq_true_iff]
+      rcases (mem_eq_true_iff f (g ++ [k])).mp hmem with h | ⟨e, he, hpre⟩
+      · exact absurd h (append_singleton_ne_nil g k)
+      · exact Or.inr ⟨e, he, (List.prefix_append g [k]).trans hpre⟩
+  rw [fromHdf5_some sch f s hs hg, hp]
+  exact hread
+
+/-- non-vacuity: a protocol under `prot/true`, a matrix next to it under `prot/gm`, a second protocol above both
+    (`prot`), the matrix overwritten by a poorer one: the hypotheses are decidable on the instance and every
+    location reads back what was written there last -/
+example :
+    let H : List WriteX := [writeOf tpSchema ["prot", "true"] [], writeOf pgmatSchema ["prot", "gm"] Ex.pgRich,
+      writeOf tpSchema ["prot"] [], writeOf pgmatSchema ["prot", "gm"] Ex.pgPoor]
+    (runHistX [] H).2 = none ∧
+    mem (runHistX [] H).1 ["prot", "true"] = true ∧
+    fromHdf5At tpSchema (runHistX [] H).1 ["prot", "true"] = .ok [] ∧
+    fromHdf5At pgmatSchema (runHistX [] H).1 ["prot", "gm"] = .ok Ex.pgPoor ∧
+    mem (runHistX [] H).1 ["elsewhere"] = false := by
+  decide +kernel
+
+/-- **D30, repaired.**  `TruePhenotyping.to_hdf5` *before* the repair violated the statement: the protocol has
+    no parameter to store, `to_hdf5` wrote nothing, so a group that did not exist before still did not exist,
+    and `from_hdf5` with that group name refused (`LookupError`) — for every file and every fresh group name. -/
+theorem tp_named_group_prerepair_counterexample (s : String) (f : File) (hs : s.isEmpty = false)
     (hfresh : mem f (parsePath s) = false) :
-    (toHdf5 f (some s) true []).2 = none ∧
-    fromHdf5 tpSchema (toHdf5 f (some s) true []).1 (some s) = .error .missing := by
-  have hw : toHdf5 f (some s) true [] = (f, none) := by
-    simp [toHdf5, toHdf5G, groupPath, hs, writeItems]
+    (toHdf5TPPrerepair f (some s) true).2 = none ∧
+    fromHdf5 tpSchema (toHdf5TPPrerepair f (some s) true).1 (some s) = .error .missing := by
+  have hw : toHdf5TPPrerepair f (some s) true = (f, none) := by
+    simp [toHdf5TPPrerepair, toHdf5G, groupPath, hs, writeItems]
     rfl
   rw [hw]
   refine ⟨rfl, ?_⟩
   simp [fromHdf5, fromHdf5G, chk, hfresh]
   rfl
 
-/-- what does hold for the parameter-free protocol: the round trip at the base group (`groupname = None`)
-    and under any group that already exists in the file (e.g. because another object lives below it) -/
-theorem tp_hdf5_roundtrip_partial (f : File) :
-    fromHdf5 tpSchema (toHdf5 f none true []).1 none = .ok [] ∧
-    (∀ s, s.isEmpty = false → mem f (parsePath s) = true →
-      fromHdf5 tpSchema (toHdf5 f (some s) true []).1 (some s) = .ok []) := by
-  constructor
-  · simp [toHdf5, toHdf5G, groupPath, writeItems, fromHdf5, fromHdf5G, fromHdf5AtG, readRaw, checkRequired,
-      readFields, tpSchema]
-    rfl
-  · intro s hs hm
-    have hw : toHdf5 f (some s) true [] = (f, none) := by
-      simp [toHdf5, toHdf5G, groupPath, hs, writeItems]
-      rfl
-    rw [hw, fromHdf5_some tpSchema f s hs hm]
+/-- **The parameter-free protocol, full statement** (the code as repaired): for EVERY file, every group name
+    (or `None`) and either value of `overwrite`, whenever `to_hdf5` returns without error `from_hdf5` with the
+    same group argument returns the protocol … -/
+theorem tp_hdf5_roundtrip (f : File) (ow : Bool) :
+    fromHdf5 tpSchema (toHdf5TP f none ow).1 none = .ok [] ∧
+    (∀ s, s.isEmpty = false → (toHdf5TP f (some s) ow).2 = none →
+      fromHdf5 tpSchema (toHdf5TP f (some s) ow).1 (some s) = .ok []) := by
+  have hread : ∀ (f' : File) (p : Path), fromHdf5At tpSchema f' p = .ok [] := by
+    intro f' p
     simp [fromHdf5At, fromHdf5AtG, readRaw, checkRequired, readFields, tpSchema]
     rfl
+  constructor
+  · simp [toHdf5TP, groupPath, writeItems, fromHdf5, fromHdf5G]
+    exact hread f []
+  · intro s hs hok
+    rw [toHdf5TP_named f s ow hs] at hok ⊢
+    by_cases hg : (parsePath s == []) = true
+    · rw [if_pos hg]
+      have hm : mem f (parsePath s) = true := by
+        have : parsePath s = [] := by simpa using hg
+        rw [this]; rfl
+      rw [fromHdf5_some tpSchema f s hs hm]
+      exact hread _ _
+    · rw [if_neg hg] at hok ⊢
+      cases h : requireGroup f (parsePath s) with
+      | mk f' e =>
+        rw [h] at hok
+        have he : e = none := hok
+        subst he
+        rw [fromHdf5_some tpSchema f' s hs (mem_after_requireGroup f f' _ h)]
+        exact hread _ _
+
+/-- … and `to_hdf5` does return without error whenever neither the group path nor one of its ancestors is a
+    dataset of the file (a fresh file, a fresh group, an existing group: all fine) -/
+theorem tp_to_hdf5_ok (f : File) (s : String) (ow : Bool) (hs : s.isEmpty = false)
+    (hfree : ∀ e ∈ f, ¬ e.1 <+: (parsePath s ++ [markKey])) :
+    (toHdf5TP f (some s) ow).2 = none := by
+  rw [toHdf5TP_named f s ow hs]
+  by_cases hg : (parsePath s == []) = true
+  · rw [if_pos hg]
+  · rw [if_neg hg]
+    obtain ⟨f', hf'⟩ := requireGroup_ok f (parsePath s) hfree
+    rw [hf']
+
+/-- the steps of a history over all classes ARE the classes' `to_hdf5` calls with `overwrite = True`:
+    `TruePhenotyping.to_hdf5` for the class that makes its group, the generic writer for the others -/
+theorem stepX_is_to_hdf5 (sch : Schema) (f : File) (s : String) (o : Obj) (hs : s.isEmpty = false) :
+    (requiresGroup sch = true → stepX f (writeOf sch (parsePath s) []) = toHdf5TP f (some s) true) ∧
+    (requiresGroup sch = false → stepX f (writeOf sch (parsePath s) o) = toHdf5 f (some s) true o) := by
+  constructor
+  · intro h
+    rw [toHdf5TP_named f s true hs]
+    by_cases hg : (parsePath s == []) = true
+    · have hnil : parsePath s = [] := by simpa using hg
+      simp [stepX, writeOf, h, hnil, writeItems]
+    · have hg' : (parsePath s == []) = false := by simpa using hg
+      have hne : (parsePath s != []) = true := by simp [bne, hg']
+      simp only [stepX, writeOf, h, hne, Bool.and_self, if_true, hg', Bool.false_eq_true, if_false]
+      cases hr : requireGroup f (parsePath s) with
+      | mk f' e => cases e <;> simp [writeItems]
+  · intro h
+    have hgp : groupPath (some s) = .ok (parsePath s) := by simp [groupPath, hs]; rfl
+    simp [stepX, writeOf, h, toHdf5, toHdf5G, hgp]
+
+/-- `TruePhenotyping.to_hdf5` does not look at `overwrite`: on an occupied group it is accepted as well (there is
+    nothing of the protocol's own to overwrite) -/
+theorem tp_overwrite_irrelevant (f : File) (g : Option String) :
+    toHdf5TP f g false = toHdf5TP f g true := by
+  unfold toHdf5TP
+  cases groupPath g with
+  | error e => rfl
+  | ok p =>
+    simp only
+    cases (if (p == []) = true then (f, none) else requireGroup f p) with
+    | mk f' e => cases e <;> simp [writeItems]
+
+/-- the D30 history under the code as it is (regression instance at path level: `String.splitOn` does not
+    reduce in the kernel): a fresh nested group, then a second call with `overwrite = False` — accepted, the
+    group is there and stays -/
+theorem tp_named_group_regression :
+    let f1 := (stepX [] (writeOf tpSchema ["prot", "true"] [])).1
+    mem [] ["prot", "true"] = false ∧ mem f1 ["prot", "true"] = true ∧ mem f1 ["prot"] = true ∧
+    requireGroup f1 ["prot", "true"] = (f1, none) ∧
+    fromHdf5At tpSchema f1 ["prot", "true"] = .ok [] := by
+  decide +kernel
 
 /-! ## the Spec oracle of stored / copied objects (driver op `c16.spec_obj`) -/
 
@@ -222,17 +330,23 @@ theorem schema_keys_nodup :
     (vmatSchema.fields.map (·.key)).Nodup ∧ (algSchema.fields.map (·.key)).Nodup ∧
     (adlgSchema.fields.map (·.key)).Nodup ∧ ((geSchema 2).fields.map (·.key)).Nodup ∧
     ((vmatKSchema 3).fields.map (·.key)).Nodup ∧ ((vmatKSchema 4).fields.map (·.key)).Nodup ∧
-    (tpSchema.fields.map (·.key)).Nodup := by
+    (tpSchema.fields.map (·.key)).Nodup ∧
+    -- the base classes of `pybrops.core.mat` and the (n,n,t,t) covariance matrices
+    (dmatSchema.fields.map (·.key)).Nodup ∧ (tmatSchema.fields.map (·.key)).Nodup ∧
+    (vrmatSchema.fields.map (·.key)).Nodup ∧ (tvmatSchema.fields.map (·.key)).Nodup ∧
+    (trmatSchema.fields.map (·.key)).Nodup ∧ (ttmatSchema.fields.map (·.key)).Nodup ∧
+    (sq4Schema.fields.map (·.key)).Nodup := by
   decide +kernel
 
 /-- every class uses its field names consistently: only `hyperparams` is a nested dictionary -/
 theorem schema_typing (sch : Schema)
     (h : sch.fields ∈ [pgmatSchema.fields, bvmatSchema.fields, cmatSchema.fields, vmatSchema.fields,
       algSchema.fields, adlgSchema.fields, (geSchema 0).fields, (vmatKSchema 3).fields, (vmatKSchema 4).fields,
-      tpSchema.fields]) :
+      tpSchema.fields, dmatSchema.fields, tmatSchema.fields, vrmatSchema.fields, tvmatSchema.fields,
+      trmatSchema.fields, ttmatSchema.fields, sq4Schema.fields]) :
     ∀ fd ∈ sch.fields, Ex.ty fd.key = (fd.reader == .dict) := by
   simp only [List.mem_cons, List.mem_nil_iff, or_false] at h
-  rcases h with h | h | h | h | h | h | h | h | h | h <;> rw [h] <;> decide +kernel
+  rcases h with h | h | h | h | h | h | h | h | h | h | h | h | h | h | h | h | h <;> rw [h] <;> decide +kernel
 
 /-- non-vacuity: one valid object per persistable class (grouped, non-ASCII labels, several traits,
     nested hyper-parameters incl. a string value) — `valid` is the hypothesis `hv` above -/
@@ -246,6 +360,9 @@ example : valid algSchema Ex.algEx = true := by decide +kernel
 example : valid algSchema Ex.algStr = true := by decide +kernel
 example : valid adlgSchema Ex.adlgEx = true := by decide +kernel
 example : valid (geSchema 2) Ex.geEx = true := by decide +kernel
+/-- … and of the base classes: a grouped taxa × variant matrix with labels on both axes, a 4-d covariance matrix -/
+example : valid tvmatSchema Ex.tvEx = true ∧ valid sq4Schema Ex.sq4Ex = true ∧ valid dmatSchema Ex.dmEx = true := by
+  decide +kernel
 
 /-- non-vacuity of the history hypotheses: a poorer object written over a richer one, a model with
     a string hyper-parameter in a sibling group -/
@@ -519,13 +636,16 @@ example :
 open StoreVcf in
 /-- **spec_sound (VCF).**  The decidable Spec that the check evaluates on the implementation's matrix and
     labels (`c16.spec_vcf`: sample names, shapes, every variant with its chromosome, position, identifier —
-    where the record has one — and column of calls; file order without grouping, a (chromosome, position)-
-    sorted permutation with grouping) accepts the model's output for every file with one phased diploid
-    call per sample, both classes, with and without grouping. -/
+    where the record has one — and column of calls; file order without grouping, a permutation with grouping:
+    the property speaks of reproducing names, coordinates, identifiers and calls, not of an order) accepts the
+    model's output for every file with one phased diploid call per sample, both classes, with and without
+    grouping; the model's grouped output is moreover in (chromosome, position) order (`sortedOut`, compared with
+    the code through model = code). -/
 theorem vcf_spec_sound (samples : List String) (recs : List Rec) (hasId : List Bool) (autoGroup phased : Bool)
     (hrect : ∀ r ∈ recs, r.calls.length = samples.length) :
-    specVcf samples recs hasId autoGroup phased (gotOf (fromVcf samples recs autoGroup)) = true :=
-  specVcf_sound samples recs hasId autoGroup phased hrect
+    specVcf samples recs hasId autoGroup phased (gotOf (fromVcf samples recs autoGroup)) = true ∧
+    sortedOut recs.length (gotOf (fromVcf samples recs true)) = true :=
+  ⟨specVcf_sound samples recs hasId autoGroup phased hrect, sortedOut_model samples recs⟩
 
 open StoreVcf in
 /-- … and it is not vacuous: it rejects the same import with the identifiers left in file order while the
